@@ -21,7 +21,7 @@ func verifC02Liquidity(op int) {
 	verifExpect("accepted", "rejected", "deadline-passed")
 	e := newCsEnv(true)
 	one, zero := big.NewInt(1), big.NewInt(0)
-	w := verifPow2(64)
+	w := verifAmt(64)
 	var pool types.Pool
 	lpt := types.GetLptDenom(e.k.getSequence(e.ctx))
 	if op != 1 {
@@ -40,7 +40,7 @@ func verifC02Liquidity(op int) {
 	}
 	for _, d := range []string{csStd, "btc", "eth"} {
 		e.bank.fund(e.sender, d, verifIntIn("balS_"+d, zero, verifPow2(131)))
-		e.bank.fund(e.other, d, verifIntIn("balO_"+d, zero, verifPow2(66)))
+		e.bank.fund(e.other, d, verifIntIn("balO_"+d, zero, verifAmt(66)))
 	}
 	if op == 2 || op == 4 {
 		// part of the share supply belongs to the sender
